@@ -335,6 +335,22 @@ def gen_stack_program(rng, dom, max_units):
         ops.append({"op": "evalall", "d": out})
         ops.append({"op": "modelcount", "d": out})
         checks.append(("restrict", src, out, left.index(u), v, n - 1))
+    if rng.random() < 0.7:
+        # a restricted diagram as an OPERAND of concatenate: restricting the first variable moved the root of a half off slot 0 (for value 1: the second node
+        # of the next level), and concatenate must enter / leave each element through the element's own root, whichever side it stands on
+        ounits = rng.sample(range(12, 20), rng.randint(1, 2))
+        o = new()
+        ops.append({"op": ("tree" if len(ounits) == 2 and rng.random() < 0.5 else "chain"), "out": o, "units": ounits, "C": 2})
+        ops.append({"op": "update", "d": o, "asg": [[rng.choice(ounits), rng.randrange(2)]], "v": au.rand_value(rng, dom, p_inf=0.03, small=False), "inc": True})
+        ops.append({"op": "evalall", "d": o})
+        for h in (halves if rng.random() < 0.5 else [halves[1]]):
+            for order in ([h, o], [o, h]):
+                out = new()
+                ops.append({"op": "concat", "out": out, "els": order})
+                ops.append({"op": "evalall", "d": out})
+                ops.append({"op": "modelcount", "d": out})
+                checks.append(("concat", order[0], order[1], out))
+        kinds.add("concat")
     if diam * diam <= 64 and rng.random() < 0.5:
         # the two halves share all arrays but the root (and the values pushed below it)
         out = new()
@@ -462,6 +478,17 @@ def run(ctx):
                     want = [a[asg.index(x[:pos] + (v,) + x[pos:])] for x in itertools.product(range(2), repeat=nvars - 1)]
                     if b != want:
                         ctx.mismatch("restrict() does not evaluate to the original with the variable fixed", case, impl=b, spec=want)
+                        failed = True
+                        break
+            elif chk[0] == "concat":
+                # eval(concatenate([x, y]))(a ++ b) = eval(x)(a) + eval(y)(b), from the implementation's own evaluations of the two operands
+                _, x, y, out = chk
+                a, b, c = obs.get(("evalall", x)), obs.get(("evalall", y)), obs.get(("evalall", out))
+                if isinstance(a, list) and isinstance(b, list):
+                    want = [au.sat_add(dom, p, r) for p in a for r in b]
+                    if c != want:
+                        ctx.mismatch("concatenate() does not evaluate to the sum of its operands on their argument slices (an operand whose root is not node 0: a restricted diagram)",
+                                     case, impl=c, spec=want)
                         failed = True
                         break
             else:
